@@ -21,6 +21,9 @@ func instrument(dir string, files []string) (string, error) {
 	}
 	replace := map[string]string{}
 	for i, rel := range files {
+		// "<file>+sync": also swap package sync for verif/vsync (lock acquisitions become yield points)
+		withSync := strings.HasSuffix(rel, "+sync")
+		rel = strings.TrimSuffix(rel, "+sync")
 		src := filepath.Join(repoDir, rel)
 		if _, err := os.Stat(src); os.IsNotExist(err) {
 			// the file was renamed / merged by a refactor: nothing to shim here; a monitor that then sees no
@@ -53,6 +56,16 @@ func instrument(dir string, files []string) (string, error) {
 				}
 				to := fset.Position(imp.Path.End()).Offset
 				edits = append(edits, edit{from, to, name + " " + strconv.Quote("verif/vatomic")})
+			}
+			if p == "sync" && withSync {
+				name := "sync"
+				from := fset.Position(imp.Path.Pos()).Offset
+				if imp.Name != nil {
+					name = imp.Name.Name
+					from = fset.Position(imp.Name.Pos()).Offset
+				}
+				to := fset.Position(imp.Path.End()).Offset
+				edits = append(edits, edit{from, to, name + " " + strconv.Quote("verif/vsync")})
 			}
 		}
 		if len(edits) == 0 {
